@@ -107,6 +107,9 @@ func genUpdate(r *Rng, pf Profile, l, nb int) Op {
 			op.MV = r.Uint64()
 			if op.M == "xsig_unknown" {
 				op.MV = uint64(r.Range(1, 6))
+				if r.Chance(0.25) {
+					op.MV = uint64(r.Range(94, 101)) // around the note format's limit of 100 signature lines
+				}
 			}
 		}
 		return op
